@@ -14,6 +14,10 @@ A *case* is a JSON-able dict
            (pattern None = the case's own pattern, so "the identical pattern again" survives shrinking of the pattern)
   txadv    ticks advanced inside the transaction before the pattern command (crosses no deadline)
   template [["lit", text] | ["arg", name], ...], args {name: text}   (invalidate; pattern = the substitution)
+  access   {name: "sub" | "attr" | "subattr"}   (invalidate, optional) how the template reaches the text of an argument: `{x[k]}` with the
+           argument passed as {"k": text}, `{x.a}` with an object whose attribute a is the text, `{x[k].a}` with {"k": object}
+  warm     [["scan"|"get_match", "outside"|"tx"], ...]   (tx / invalidate-in-a-transaction, optional) pattern reads issued on the SAME Cache object
+           before the judged transaction: outside any transaction, or inside an earlier transaction that is committed empty
 
   kind "iter": an iteration consumed STEP BY STEP with other commands between two steps (never raising must hold for such consumers too):
   entry    "mem" | "facade" | "facade_secret";  size  None | n (the store's `size`: a full store evicts on a write of a new key)
@@ -177,11 +181,31 @@ def pattern_of(case: dict) -> str:
     return case["pattern"]
 
 
+ACCESSORS = {None: "", "sub": "[k]", "attr": ".a", "subattr": "[k].a"}
+
+
 def template_string(case: dict) -> str:
+    acc = case.get("access") or {}
     return "".join(
-        seg[1].replace("{", "{{").replace("}", "}}") if seg[0] == "lit" else "{" + seg[1] + "}"
+        seg[1].replace("{", "{{").replace("}", "}}") if seg[0] == "lit" else "{" + seg[1] + ACCESSORS[acc.get(seg[1])] + "}"
         for seg in case["template"]
     )
+
+
+class _Obj:
+    def __init__(self, a):
+        self.a = a
+
+
+def shaped(text: str, how):
+    """the argument value from which the accessor `how` of the template reads `text`"""
+    if how == "sub":
+        return {"k": text, "other": "zz"}
+    if how == "attr":
+        return _Obj(text)
+    if how == "subattr":
+        return {"k": _Obj(text)}
+    return text
 
 
 def reaches_reserved(case: dict) -> bool:
@@ -262,6 +286,8 @@ def model_lines(case: dict, obs: dict | None = None) -> list[str]:
     cmd = "delete_match" if kind == "invalidate" else case["cmd"]
     word = {"scan": "scan", "get_match": "getmatch", "delete_match": "delmatch"}[cmd]
     if in_tx:
+        for what, _where in case.get("warm") or []:
+            lines.append(f"{'scan' if what == 'scan' else 'getmatch'} {pat}")      # a read of the store (get_match touches it)
         lines.append("txbegin")
         for op in case.get("txops") or []:
             if op[0] == "set":
@@ -378,6 +404,24 @@ async def _txops(api, case: dict):
     CLOCK.advance(case.get("txadv", 0))
 
 
+async def _warm(cache, case: dict, mode):
+    """pattern reads on this very Cache object before the judged transaction (results are not judged)"""
+    from cashews.wrapper.transaction import TransactionMode
+
+    pat = pattern_of(case)
+    for what, where in case.get("warm") or []:
+        async def read():
+            if what == "scan":
+                [k async for k in cache.scan(pat)]
+            else:
+                [kv async for kv in cache.get_match(pat)]
+        if where == "tx" and mode:
+            async with cache.transaction(TransactionMode(mode)):
+                await read()
+        else:
+            await read()
+
+
 async def _invalidating_call(cache, case: dict):
     tmpl = template_string(case)
 
@@ -386,7 +430,8 @@ async def _invalidating_call(cache, case: dict):
         return 7
 
     omit = case.get("omit") or []
-    given = {k: v for k, v in case["args"].items() if k not in omit}
+    acc = case.get("access") or {}
+    given = {k: shaped(v, acc.get(k)) for k, v in case["args"].items() if k not in omit}
     try:
         if case.get("positional") and "x" in given:
             r = await func(given.pop("x"), **given)
@@ -464,6 +509,7 @@ async def exec_case(case: dict) -> dict:
         return obs
     # --- inside a transaction, and the same commands executed directly on an equal store
     t_after_fill = CLOCK.t
+    await _warm(cache, case, mode)
     try:
         async with cache.transaction(TransactionMode(mode)):
             await _txops(cache, case)
@@ -480,6 +526,7 @@ async def exec_case(case: dict) -> dict:
     await _fill(direct, case)
     if CLOCK.t != t_after_fill:
         raise RuntimeError("clock drift between the transactional and the direct run")
+    await _warm(direct, case, None)
     await _txops(direct, case)
     if kind == "invalidate":
         obs["direct_res"] = await _invalidating_call(direct, case)
@@ -731,6 +778,13 @@ def store_entry(rng, text: str, adv: int):
     return [text, ttl, rand_val(rng, True)]
 
 
+def rand_warm(rng, cmd: str) -> list:
+    """1-2 pattern reads before the transaction, the judged command itself more often than not"""
+    own = cmd if cmd in ("scan", "get_match") else rng.choice(["scan", "get_match"])
+    return [[own if rng.random() < 0.7 else rng.choice(["scan", "get_match"]), rng.choice(["outside", "outside", "tx"])]
+            for _ in range(rng.choice([1, 1, 2]))]
+
+
 def gen_small(rng, kind: str, alphabet: str = FULL_ALPHABET, maxpat: int = 8, mode: str | None = None) -> dict:
     pat = rand_pattern(rng, alphabet, maxpat)
     adv = rng.choice([0, 8, 8, 16, 24])
@@ -761,6 +815,8 @@ def gen_small(rng, kind: str, alphabet: str = FULL_ALPHABET, maxpat: int = 8, mo
         case["txadv"] = rng.choice([0, 0, 4])
         if rng.random() < 0.3:
             case["secret"] = True
+        if rng.random() < 0.45:
+            case["warm"] = rand_warm(rng, case["cmd"])
     return case
 
 
@@ -793,6 +849,11 @@ def gen_invalidate(rng, alphabet: str = FULL_ALPHABET, mode: str | None = None) 
     if mode:
         case["mode"] = mode
         case["txops"] = [["set", t, rand_val(rng, False), None] for t in gen_keys(rng, pat, alphabet, rng.randint(0, 2))]
+        if rng.random() < 0.3:
+            case["warm"] = rand_warm(rng, "scan")
+    if rng.random() < 0.5:
+        # the template reaches the argument's text through an accessor: {x[k]}, {x.a}, {x[k].a}
+        case["access"] = {n: rng.choice(["sub", "sub", "attr", "subattr"]) for n in args if n not in omit and rng.random() < 0.8}
     return case
 
 
@@ -826,6 +887,16 @@ def split_case(rng, texts: list[str], placement: list[str], pattern: str, cmd: s
         elif p == "OD":
             ops += [["set", t, w, None], ["del", t]]
     return {"kind": "tx", "mode": mode, "keys": keys, "adv": adv, "txops": ops, "txadv": 0, "cmd": cmd, "pattern": pattern}
+
+
+WARMS = [None, [["scan", "outside"]], [["get_match", "outside"]], [["scan", "tx"]], [["get_match", "tx"]],
+         [["scan", "outside"], ["get_match", "tx"]]]
+
+
+def with_warm(case: dict, i: int) -> dict:
+    """the case preceded by the i-th warm-up of `WARMS` (none / scan or get_match outside a transaction / in an earlier one)"""
+    w = WARMS[i % len(WARMS)]
+    return dict(case, warm=w) if w else case
 
 
 MULTI_FIRST = [["delmatch", None], ["delmatch", "a.b*"], ["delmatch", "*b"], ["scan", None], ["getmatch", None]]
@@ -1008,6 +1079,15 @@ def interesting(case: dict) -> list[str]:
             tags.append("tx_matching_key_only_in_overlay")
     if case["kind"] == "invalidate" and sel:
         tags.append("invalidate_template_selects_a_key")
+    if case.get("warm") and (case.get("txops") or case["kind"] == "invalidate"):
+        cmd_ = "delete_match" if case["kind"] == "invalidate" else case["cmd"]
+        tags.append("tx_pattern_reads_before_the_transaction_on_the_same_cache")
+        if any(w[0] == cmd_ for w in case["warm"]) and case.get("txops"):
+            tags.append("tx_judged_read_was_already_used_" + ("in_an_earlier_transaction" if any(w[0] == cmd_ and w[1] == "tx" for w in case["warm"]) else "outside_a_transaction"))
+    if case["kind"] == "invalidate" and any((case.get("access") or {}).get(seg[1]) for seg in case["template"] if seg[0] == "arg"):
+        tags.append("invalidate_template_with_accessor")
+        if any((case.get("access") or {}).get(seg[1]) in ("sub", "subattr") for seg in case["template"] if seg[0] == "arg"):
+            tags.append("invalidate_template_field_starts_with_a_subscript")
     if case["kind"] == "iter":
         between = case.get("between") or []
         flat = [op for step in between for op in step]
